@@ -202,3 +202,46 @@ Theorem C06_btor2_uint_exact : forall fuel lr v r,
 Proof. exact uint_value. Qed.
 Print Assumptions C06_btor2_uint_exact.
 
+
+(* ------------------------------------------------------------------ *)
+(* The AIGER streaming API with early section switches (AigerStream.v, AigerStreamProofs.v): a caller that takes at most
+   n entries of every section and then calls the next section-switch method — whose loop
+   `while self.xxx_left != 0 { self.next_xxx()?; }` reads, checks and drops the rest — gets, in every admissible run,
+   the header and the final outcome (clean end, the same ESyntax l c, the same EIo e) of the exhaustive parse of the
+   same view, and exactly the exhaustive parse's items with every section cut to its first n entries: the limits and
+   exact values pinned above hold for what is skipped as well as for what is handed out. *)
+From Flussab Require Import AigerStream AigerStreamProofs.
+
+Theorem C06_take_sections_vocabulary : forall n l,
+  take_sections n l =
+    flat_map (fun t => firstn n (filter (fun x => Nat.eqb (sec_of x) t) l)) (seq 0 10)
+    ++ filter (fun x => Nat.eqb (sec_of x) 10) l /\
+  forall x, sec_of x = match x with
+                       | IInput _ => 0 | ILatch _ _ _ | IOLatch _ _ => 1 | IOutput _ => 2 | IBad _ => 3
+                       | IConstraint _ => 4 | IJusticeSize _ => 5 | IJustice _ => 6 | IFairness _ => 7
+                       | IAnd _ _ _ | IOAnd _ _ => 8 | ISymbol _ _ _ => 9 | IComment _ => 10
+                       end%nat.
+Proof. intros. split; [reflexivity|]. intros x. destruct x; reflexivity. Qed.
+Print Assumptions C06_take_sections_vocabulary.
+
+Theorem C06_aag_take_agrees : forall fuel maxc n S fail r,
+  Forall (fun b => b < 256) S -> nlen S < 2 ^ 62 -> (length S < fuel)%nat ->
+  aruns (parse_aag_take fuel maxc n lrs_init) (view_init S fail) r ->
+  exists ohd items fin lr' v',
+    r = ADone (ohd, take_sections n items, fin, lr') v' /\
+    aruns (parse_aag fuel maxc lrs_init) (view_init S fail) (ADone (ohd, items, fin, lr') v') /\
+    forall r', aruns (parse_aag fuel maxc lrs_init) (view_init S fail) r' ->
+               exists v'', r' = ADone (ohd, items, fin, lr') v''.
+Proof. exact parse_aag_take_agrees. Qed.
+Print Assumptions C06_aag_take_agrees.
+
+Theorem C06_aig_take_agrees : forall fuel maxc n S fail r,
+  Forall (fun b => b < 256) S -> nlen S < 2 ^ 62 -> (length S < fuel)%nat ->
+  aruns (parse_aig_take fuel maxc n lrs_init) (view_init S fail) r ->
+  exists ohd items fin lr' v',
+    r = ADone (ohd, take_sections n items, fin, lr') v' /\
+    aruns (parse_aig fuel maxc lrs_init) (view_init S fail) (ADone (ohd, items, fin, lr') v') /\
+    forall r', aruns (parse_aig fuel maxc lrs_init) (view_init S fail) r' ->
+               exists v'', r' = ADone (ohd, items, fin, lr') v''.
+Proof. exact parse_aig_take_agrees. Qed.
+Print Assumptions C06_aig_take_agrees.
